@@ -611,9 +611,14 @@ impl Monitors {
         // the old identity is gossiped as Down after a rejoin
         let mut prev = pre.id;
         let was_defunct = pre.undead();
+        let n_rejoins = rec.notes().filter(|n| matches!(n, OwnedNotification::Rejoin(_))).count();
+        let mut seen_rejoins = 0;
         for n in rec.notes() {
             if let OwnedNotification::Rejoin(new) = n {
-                if !was_defunct {
+                seen_rejoins += 1;
+                // with several renewals in one call the Down of an intermediate identity supersedes the
+                // earlier one (one pending update per address): only the last one is owed to the cluster
+                if !was_defunct && seen_rejoins == n_rejoins && n_rejoins == 1 {
                     let enc = crate::codec::enc_member(self.codec, &Member::new(prev, 0, State::Down));
                     let in_backlog = post.snap.updates.iter().any(|(d, _)| *d == enc);
                     let mut in_sends = false;
